@@ -1,1 +1,23 @@
-fn main(){}
+//! Process-level checks of the binaries built from /repo (C18-C20).
+use vl_model::ctx::parse_args;
+
+mod c18;
+mod c19;
+mod c20;
+mod raw;
+mod spawn;
+
+fn main() {
+    let args = parse_args();
+    std::panic::set_hook(Box::new(|_| {}));
+    vl_model::pt::set_code_under_test_in_process(false);
+    match args.id.as_str() {
+        "C18" => c18::run(&args),
+        "C19" => c19::run(&args),
+        "C20" => c20::run(&args),
+        other => {
+            eprintln!("vl-proc: unknown property {}", other);
+            std::process::exit(2)
+        }
+    }
+}
